@@ -101,6 +101,25 @@ RunOutput run_svd(const Plan& plan, const RunOpts&)
             const long kall = spec.nev + 2;
             SvdSnap a;
             a.ret = r.ret;
+            // the harness' own full read must not be the FIRST accessor call after every compute() (it would prime any lazily
+            // filled cache with all columns): in half of the computes a narrow read of one factor comes first
+            const uint64_t pre = mix64(plan.run_seed, 0x5EED + (uint64_t) i);
+            if (pre & 1)
+            {
+                const long k0 = (long) ((pre >> 8) % (uint64_t) (spec.nev + 1));
+                Snapshot narrow_read;
+                ApiResult rn = guarded([&]() -> long {
+                    if (pre & 2) alpha->matrix_U(narrow_read, k0);
+                    else alpha->matrix_V(narrow_read, k0);
+                    return 0;
+                });
+                out.stats.add("op.narrow_read_first");
+                if (!rn.threw && narrow_read.vcols != std::min(k0, nconv))
+                {
+                    std::snprintf(buf, sizeof buf, "first accessor call after compute(): matrix_%s(%ld) returned %ld columns with nconv=%ld", (pre & 2) ? "U" : "V", k0, narrow_read.vcols, nconv);
+                    viol("column-count", (int) i, 1, buf);
+                }
+            }
             ApiResult ra = snap(*alpha, a, kall);
             if (sanitizer_reports() != san0 || ra.threw)
             {
